@@ -1,0 +1,148 @@
+// SPDX-FileCopyrightText: 2020 - 2025 SAP SE
+//
+// SPDX-License-Identifier: Apache-2.0
+
+//go:build verif
+
+package tds
+
+import (
+	"context"
+	"fmt"
+	"io"
+	"sync"
+)
+
+// This file is only compiled with the build tag "verif". It gives the
+// verification harness access to a Conn on an arbitrary transport and
+// read-only views of internal state. It adds code only.
+
+// VerifNewConn does what NewConn does after dialing, on the passed
+// transport. The reader goroutine is only started if startReader is set.
+func VerifNewConn(ctx context.Context, info *Info, conn io.ReadWriteCloser, startReader bool) (*Conn, error) {
+	tds := &Conn{
+		info:       info,
+		conn:       conn,
+		packetSize: 512,
+	}
+
+	if err := tds.setCapabilities(); err != nil {
+		return nil, fmt.Errorf("error setting capabilities on connection: %w", err)
+	}
+
+	tds.odce = aes_256_cbc
+
+	tds.ctx, tds.ctxCancel = context.WithCancel(ctx)
+	tds.tdsChannelCurFreeId = uint32(0)
+	tds.tdsChannels = make(map[int]*Channel)
+	tds.tdsChannelsLock = &sync.RWMutex{}
+	tds.errCh = make(chan error, 10)
+
+	if startReader {
+		go tds.ReadFrom()
+	}
+
+	return tds, nil
+}
+
+// VerifSetPacketSize sets the packet size in force.
+func (tds *Conn) VerifSetPacketSize(n int) { tds.packetSize = n }
+
+// VerifCancel cancels the connection context.
+func (tds *Conn) VerifCancel() { tds.ctxCancel() }
+
+// VerifChannelIds returns the ids of the registered channels.
+func (tds *Conn) VerifChannelIds() []int {
+	tds.tdsChannelsLock.RLock()
+	defer tds.tdsChannelsLock.RUnlock()
+	ids := []int{}
+	for id := range tds.tdsChannels {
+		ids = append(ids, id)
+	}
+	return ids
+}
+
+// VerifErrChLen returns the number of queued connection errors.
+func (tds *Conn) VerifErrChLen() int { return len(tds.errCh) }
+
+// VerifNextErr returns a queued connection error, if any.
+func (tds *Conn) VerifNextErr() error {
+	select {
+	case err := <-tds.errCh:
+		return err
+	default:
+		return nil
+	}
+}
+
+// VerifChannelId returns the id of the channel.
+func (tdsChan *Channel) VerifChannelId() int { return tdsChan.channelId }
+
+// VerifSetCurPacketNr sets the number of the next outgoing packet.
+func (tdsChan *Channel) VerifSetCurPacketNr(n int) { tdsChan.curPacketNr = n }
+
+// VerifQueueLens returns the fill levels of the package and error queues.
+func (tdsChan *Channel) VerifQueueLens() (int, int) { return len(tdsChan.packageCh), len(tdsChan.errCh) }
+
+// VerifNextErr returns a queued channel error, if any.
+func (tdsChan *Channel) VerifNextErr() error {
+	select {
+	case err := <-tdsChan.errCh:
+		return err
+	default:
+		return nil
+	}
+}
+
+// VerifTxQueue and VerifRxQueue expose the packet queues.
+func (tdsChan *Channel) VerifTxQueue() *PacketQueue { return tdsChan.queueTx }
+func (tdsChan *Channel) VerifRxQueue() *PacketQueue { return tdsChan.queueRx }
+
+// VerifState returns a copy of the queue's internal state.
+func (queue *PacketQueue) VerifState() (datas [][]byte, lengths []int, indexPacket, indexData int, recvEOM bool) {
+	for _, p := range queue.queue {
+		datas = append(datas, append([]byte{}, p.Data...))
+		lengths = append(lengths, int(p.Header.Length))
+	}
+	return datas, lengths, queue.indexPacket, queue.indexData, queue.recvEOM
+}
+
+// VerifWide reports if a package is a wide variant (and if it has the
+// notion at all).
+func VerifWide(pkg Package) (wide bool, has bool) {
+	switch p := pkg.(type) {
+	case *ParamFmtPackage:
+		return p.wide, true
+	case *RowFmtPackage:
+		return p.wide, true
+	case *CurDeclarePackage:
+		return p.wide, true
+	case *CurInfoPackage:
+		return p.wide, true
+	case *DynamicPackage:
+		return p.wide, true
+	}
+	return false, false
+}
+
+// VerifSetWide sets the wide flag of a package that has one.
+func VerifSetWide(pkg Package, wide bool) {
+	switch p := pkg.(type) {
+	case *ParamFmtPackage:
+		p.wide = wide
+	case *RowFmtPackage:
+		p.wide = wide
+	case *DynamicPackage:
+		p.wide = wide
+	case *CurDeclarePackage:
+		p.wide = wide
+	case *CurInfoPackage:
+		p.wide = wide
+	}
+}
+
+// VerifLoginPack returns the login record package for a config.
+func VerifLoginPack(config *LoginConfig) (Package, error) { return config.pack() }
+
+// VerifRsaEncrypt exposes rsaEncrypt.
+func VerifRsaEncrypt(pemKey, nonce, msg []byte) ([]byte, error) { return rsaEncrypt(pemKey, nonce, msg) }
